@@ -22,6 +22,9 @@ for d in sorted(glob.glob("/verif/seeded/*")):
     oor = json.load(open("/verif/seeded/out_of_reach.json")) if os.path.exists("/verif/seeded/out_of_reach.json") else {}
     if tier == "MISSED" and os.path.basename(d) in oor:
         tier = "**not caught** (out of reach, see below)"
+    na = json.load(open("/verif/seeded/not_addressed.json")) if os.path.exists("/verif/seeded/not_addressed.json") else {}
+    if tier == "MISSED" and os.path.basename(d) in na:
+        tier = "**not caught** (last round, not addressed, see below)"
     kind = ""
     if tier.startswith("not by"):
         for o in also:
